@@ -33,7 +33,10 @@ ASSUMPTIONS = [
 RULE = ("cases = (record family: white/coloured/offset+trend/correlated inputs, q in 1..4, gains+delays/FIR couplings+independent noise, "
         "analysis options order/olap/Jdes/Kdes/scheduler/window) x sub-check (bound, least-squares reference, exact combination, permutation, "
         "invertible re-mix, analytic-vs-numeric, SISO identity, single-input MISO); every case regenerated from one 63-bit sub-seed drawn from "
-        "VERIF_SEED; distinct by (sub-check, solver, q, family, order, scheduler, coupling kind); non-trivial = at least one bin with navg > q, "
+        "VERIF_SEED; representation stream: q = 1..4 problems whose channels are handed over in different carriers (int8..uint64, bool, float16/32, "
+        "long double, big-endian, Python lists/tuples/array.array, strided/reversed/column views, read-only, masked arrays, pandas Series with "
+        "non-default / permuted / nullable index+dtype), mixed between channels, every carrier at least once per run as the input against an output "
+        "of the opposite kind, checked against the claims for the record's VALUES and against the same values as float64 arrays; distinct by (sub-check, solver, q, family, order, scheduler, coupling kind); non-trivial = at least one bin with navg > q, "
         "resolved output spectrum and cond(T) <= 1e8 was actually compared")
 
 U = 2.0 ** -53
@@ -152,8 +155,11 @@ def case_digest(c) -> str:
 
 
 def case_desc(c) -> Dict[str, Any]:
-    return {"sub_seed": c["sub_seed"], "q": c["q"], "N": c["N"], "fs": c["fs"], "family": c["family"], "coupling": c["coupling"],
-            "kw": dict(c["kw"]), "noise_rel": c["noise_rel"], "big": c.get("big", False), "digest": case_digest(c)}
+    d = {"sub_seed": c["sub_seed"], "q": c["q"], "N": c["N"], "fs": c["fs"], "family": c["family"], "coupling": c["coupling"],
+         "kw": dict(c["kw"]), "noise_rel": c["noise_rel"], "big": c.get("big", False), "digest": case_digest(c)}
+    if c.get("stream") == "repr":
+        d.update({"stream": "repr", "reps_in": list(c["reps_in"]), "rep_out": c["rep_out"], "as_tuple": bool(c["as_tuple"])})
+    return d
 
 
 # ------------------------------------------------------------------------------------------------ ingredients (real library)
@@ -235,7 +241,7 @@ def call(fn_name: str, xs, y, fs, kw):
     if fn_name == "siso":
         return systems.SISO_optimal_spectral_analysis(xs[0], y, fs, **kw)
     fn = systems.MISO_numeric_optimal_spectral_analysis if fn_name == "numeric" else systems.MISO_analytic_optimal_spectral_analysis
-    return fn(list(xs), y, fs, **kw)
+    return fn(xs if isinstance(xs, tuple) else list(xs), y, fs, **kw)
 
 
 # ------------------------------------------------------------------------------------------------ correspondence
@@ -646,6 +652,307 @@ def glue_checks(ck: Checker, rng) -> None:
             ck.viol(c, "glue", sv, "int64 records give a different result from the same values as float64")
 
 
+# ------------------------------------------------------------------------------------------------ representation stream
+# The property quantifies over all RECORDS: a record is its sample values, whatever container / dtype / memory layout carries them
+# (the docstrings accept any 1-D array-like with finite values).  Every case below fixes the VALUES of q inputs and one output as float64
+# numbers that are exactly representable in the chosen carrier, hands the carriers to the three entry points, and demands the property's
+# claims (bound, least-squares optimum of the record's own spectra, Gyy*(1-coh) for q = 1, SISO = MISO(q=1), analytic = numeric) of THOSE
+# values, plus "same values as contiguous float64 arrays give the same result".  Carriers of different channels are deliberately mixed
+# (integer counts with a fractional float output, float input with an integer output, narrow with wide integers, float32 with float64 ...).
+INT_CLASSES = {"i8": (-2.0 ** 7, 2.0 ** 7 - 1), "u8": (0.0, 2.0 ** 8 - 1), "i16": (-2.0 ** 15, 2.0 ** 15 - 1), "u16": (0.0, 2.0 ** 16 - 1),
+               "i32": (-2.0 ** 31, 2.0 ** 31 - 1), "u32": (0.0, 2.0 ** 32 - 1), "i64": (-2.0 ** 52, 2.0 ** 52), "u64": (0.0, 2.0 ** 52)}
+# carrier name -> value class (the set of float64 values the carrier holds exactly)
+REPS: Dict[str, str] = {
+    "f64": "f64",
+    "int64": "i64", "int32": "i32", "int16": "i16", "int8": "i8", "uint8": "u8", "uint16": "u16", "uint32": "u32", "uint64": "u64", "bool": "bool",
+    "list_int": "i64", "list_bool": "bool", "list_float": "f64", "tuple_float": "f64", "pyarray_d": "f64", "pyarray_i": "i32",
+    "float32": "f32", "float16": "f16", "longdouble": "f64",
+    "be_f8": "f64", "be_f4": "f32", "be_i4": "i32", "be_i2": "i16",
+    "strided_f64": "f64", "reversed_f64": "f64", "column_f64": "f64", "readonly_f64": "f64", "strided_i32": "i32", "column_i16": "i16", "reversed_f32": "f32",
+    "series_f64": "f64", "series_perm_f64": "f64", "series_i64": "i64", "series_f32": "f32", "series_bool": "bool", "series_Int64": "i32",
+    "masked_f64": "f64", "masked_i16": "i16",
+}
+REP_NAMES = list(REPS)
+WIDE = [r for r in REP_NAMES if REPS[r] == "f64"]          # carriers of arbitrary float64 values (fractional part matters)
+NARROW = [r for r in REP_NAMES if REPS[r] != "f64"]        # carriers that cannot hold an arbitrary float64 value
+
+
+def quantise(rng, v: np.ndarray, cls: str, offset: bool) -> np.ndarray:
+    """float64 values of class `cls` following the zero-mean unit-scale signal v"""
+    sd = max(float(np.std(v)), 1e-300)
+    v = v / sd
+    if cls == "bool":
+        return (v > float(np.quantile(v, rng.uniform(0.2, 0.8)))).astype(np.float64)
+    if cls in INT_CLASSES:
+        lo, hi = INT_CLASSES[cls]
+        scale = 10.0 ** rng.uniform(0.5, min(np.log10((hi - lo) / 16.0), 12.0))
+        off = 0.0
+        u1, u2, u3 = float(rng.uniform(6, 50)), float(rng.uniform(-30, 30)), float(rng.random())
+        if lo == 0.0:
+            off = min(scale * u1, hi - 8.0 * scale)
+        elif u3 < 0.3 or offset:
+            off = float(np.clip(scale * u2, lo + 8.0 * scale, hi - 8.0 * scale))
+        return np.clip(np.round(off + scale * v), lo, hi).astype(np.float64)
+    amp = 10.0 ** rng.uniform(-2.0, 0.5)                   # |value| of order 1 or smaller: truncation toward an integer destroys it
+    u1, u2, u3 = float(rng.uniform(2.0, 4.5)), float(rng.choice([-1.0, 1.0])), float(rng.random())
+    if cls == "f16":
+        return (amp * v + (amp * float(rng.uniform(-2, 2)))).astype(np.float16).astype(np.float64)
+    w = amp * v + (u2 * amp * 10.0 ** u1 if (offset or u3 < 0.3) else 0.0)   # large offset: rounding to single precision matters
+    if cls == "f32":
+        return w.astype(np.float32).astype(np.float64)
+    return w
+
+
+def make_rep(rng, name: str, v: np.ndarray):
+    """the carrier `name` holding exactly the float64 values v"""
+    import array as _array
+    N = len(v)
+    ints = {"int64": np.int64, "int32": np.int32, "int16": np.int16, "int8": np.int8, "uint8": np.uint8, "uint16": np.uint16,
+            "uint32": np.uint32, "uint64": np.uint64, "bool": np.bool_, "float32": np.float32, "float16": np.float16, "longdouble": np.longdouble,
+            "be_f8": ">f8", "be_f4": ">f4", "be_i4": ">i4", "be_i2": ">i2"}
+    if name == "f64":
+        return np.array(v, dtype=np.float64)
+    if name in ints:
+        return v.astype(ints[name])
+    if name == "list_int":
+        return [int(t) for t in v]
+    if name == "list_bool":
+        return [bool(t) for t in v]
+    if name == "list_float":
+        return [float(t) for t in v]
+    if name == "tuple_float":
+        return tuple(float(t) for t in v)
+    if name == "pyarray_d":
+        return _array.array("d", [float(t) for t in v])
+    if name == "pyarray_i":
+        return _array.array("i", [int(t) for t in v])
+    if name.startswith("strided_"):
+        dt = np.float64 if name.endswith("f64") else np.int32
+        base = (rng.standard_normal(2 * N) * 1000.0).astype(dt)      # the skipped samples are unrelated numbers
+        base[::2] = v.astype(dt)
+        return base[::2]
+    if name.startswith("reversed_"):
+        dt = np.float64 if name.endswith("f64") else np.float32
+        return np.ascontiguousarray(v[::-1].astype(dt))[::-1]
+    if name.startswith("column_"):
+        dt = np.float64 if name.endswith("f64") else np.int16
+        M = (rng.standard_normal((N, 3)) * 1000.0).astype(dt)
+        M[:, 1] = v.astype(dt)
+        return M[:, 1]
+    if name == "readonly_f64":
+        a = np.array(v, dtype=np.float64)
+        a.flags.writeable = False
+        return a
+    if name.startswith("masked_"):
+        return np.ma.MaskedArray(v.astype(np.float64 if name.endswith("f64") else np.int16))
+    if name.startswith("series_"):
+        import pandas as pd
+        if name == "series_perm_f64":
+            return pd.Series(np.array(v, dtype=np.float64), index=rng.permutation(N))          # labels must not matter, only positions
+        if name == "series_Int64":
+            return pd.Series(v.astype(np.int64), dtype="Int64", index=np.arange(N) + 7)
+        dt = {"series_f64": np.float64, "series_i64": np.int64, "series_f32": np.float32, "series_bool": np.bool_}[name]
+        return pd.Series(v.astype(dt), index=np.arange(N) + int(rng.integers(1, 1000)))
+    raise KeyError(name)
+
+
+def rep_values(r) -> np.ndarray:
+    return np.asarray(np.ma.getdata(r) if isinstance(r, np.ma.MaskedArray) else r, dtype=np.float64).reshape(-1)
+
+
+def rep_dtype(r) -> str:
+    return str(getattr(r, "dtype", type(r).__name__))
+
+
+def _draw_kw(rng) -> Dict[str, Any]:
+    kw: Dict[str, Any] = {"Jdes": int(rng.integers(10, 21)), "Kdes": int(rng.integers(2, 31)),
+                          "order": int(rng.choice([-1, 0, 1, 2])), "scheduler": str(rng.choice(SCHEDS))}
+    ol = rng.choice(["default", "0.0", "0.5", "0.75"])
+    if ol != "default":
+        kw["olap"] = float(ol)
+    wk = int(rng.integers(0, 3))
+    if wk == 1:
+        kw["win"] = "hann"
+    elif wk == 2:
+        kw["psll"] = float(rng.choice([60.0, 120.0]))
+    if rng.random() < 0.3:
+        kw["Lmin"] = int(rng.choice([8, 32, 100]))
+    return kw
+
+
+def build_repr_case(sub_seed: int, q: int, slots_in: List[str], slot_out: str, thorough: bool = False, as_tuple: Optional[bool] = None) -> Dict[str, Any]:
+    """slots: a carrier name, or "narrow" / "wide" / "any" (resolved from sub_seed).  Everything derived from sub_seed + the slots."""
+    rng = np.random.default_rng(int(sub_seed))
+    N = int(rng.integers(1000, 4001 if thorough else 2201))
+    fs = float(rng.choice([1.0, 2.0, 100.0, float(rng.uniform(0.5, 50.0))]))
+    kw = _draw_kw(rng)
+
+    def resolve(slot):
+        picks = {"narrow": NARROW[int(rng.integers(len(NARROW)))], "wide": WIDE[int(rng.integers(len(WIDE)))],
+                 "any": REP_NAMES[int(rng.integers(len(REP_NAMES)))]}          # always drawn: the stream does not depend on the slot
+        return picks.get(slot, slot)
+
+    reps_in = [resolve(s) for s in slots_in]
+    rep_out = resolve(slot_out)
+    tup = bool(rng.random() < 0.4)
+    if as_tuple is not None:
+        tup = bool(as_tuple)
+    xs = []
+    for r in reps_in:
+        v = rng.standard_normal(N)
+        if rng.random() < 0.35:
+            v = _colour(rng, v)
+        v = v - float(np.mean(v))
+        if len(xs) and rng.random() < 0.4:
+            v = v + float(rng.uniform(0.3, 1.0)) * (xs[0] - np.mean(xs[0])) / max(float(np.std(xs[0])), 1e-300) * float(np.std(v))   # correlated inputs
+        xs.append(quantise(rng, v, REPS[r], offset=False))
+    sig = np.zeros(N)
+    for v in xs:
+        g = float(rng.choice([-1.0, 1.0]) * 10.0 ** rng.uniform(-0.5, 0.5))
+        sig = sig + g * np.roll(v - np.mean(v), int(rng.integers(0, 5))) / max(float(np.std(v)), 1e-300)
+    noise_rel = float(rng.choice([0.05, 0.3, 1.0]))
+    sig = sig + noise_rel * float(np.std(sig)) * rng.standard_normal(N)
+    narrow_float_in = any(REPS[r] in ("f32", "f16") for r in reps_in)
+    y = quantise(rng, sig - float(np.mean(sig)), REPS[rep_out], offset=narrow_float_in)
+    rx = [make_rep(rng, r, v) for r, v in zip(reps_in, xs)]
+    ry = make_rep(rng, rep_out, y)
+    return {"stream": "repr", "sub_seed": int(sub_seed), "q": q, "N": N, "fs": fs, "family": "repr", "coupling": ",".join(reps_in) + "->" + rep_out,
+            "xs": xs, "y": y, "rx": rx, "ry": ry, "reps_in": reps_in, "rep_out": rep_out, "as_tuple": tup, "kw": kw, "noise_rel": noise_rel,
+            "big": bool(thorough)}
+
+
+def check_repr(ck: "Checker", c: Dict[str, Any], solvers: List[str], full: bool = True) -> None:
+    """claims of the property for the record VALUES, evaluated through the carriers; reference = the same values as contiguous float64 arrays"""
+    P = ck.P
+    q, xs, y, fs, kw = c["q"], c["xs"], c["y"], c["fs"], c["kw"]
+    rx, ry = c["rx"], c["ry"]
+    # the carriers hold exactly the values (otherwise the generator, not the library, is wrong)
+    if not (all(np.array_equal(rep_values(r), v) for r, v in zip(rx, xs)) and np.array_equal(rep_values(ry), y)):
+        P.notes.append(f"representation generator produced a carrier that does not hold its values exactly ({c['coupling']}); case skipped")
+        P.hit("repr_generator_inexact")
+        return
+    try:
+        ing = Ingredients(xs, y, fs, kw)
+    except Exception as ex:
+        P.hit("skipped_compute_spectrum_error")
+        P.notes.append(f"compute_spectrum raised {ex!r} for {kw}"[:160])
+        return
+    c["_S00"] = ing.S00
+    ck.tally(ing, q)
+    for r in c["reps_in"]:
+        P.hit("repr_in_" + r)
+    P.hit("repr_out_" + c["rep_out"])
+    keyb = (q, tuple(c["reps_in"]), c["rep_out"], kw.get("order", 0))
+    kinds = "inputs " + ", ".join(f"{n}[{rep_dtype(r)}]" for n, r in zip(c["reps_in"], rx)) + f"; output {c['rep_out']}[{rep_dtype(ry)}]"
+    cont = tuple(rx) if c["as_tuple"] else list(rx)
+    ref2 = None
+    if q == 1:
+        from speckit import compute_spectrum
+        r2 = compute_spectrum(np.vstack([xs[0], y]), fs, **kw)
+        ref2 = np.asarray(r2.Gyy, dtype=float) * (1.0 - np.asarray(r2.coh, dtype=float))
+    res: Dict[str, np.ndarray] = {}
+    for sv in solvers:
+        if sv == "siso" and q != 1:
+            continue
+        n_before = len(P.violations)
+        asd = ck.run_fn(c, "bound", sv, cont, ry, ing)
+        if asd is None:
+            continue
+        pw = asd ** 2
+        res[sv] = pw
+        g = ing.mask(sv)
+        P.hit(f"repr_{sv}_q{q}")
+        # 0 <= residual <= Gyy of the actual record
+        over = pw - ing.S00
+        badm = g & ~(over <= ETA * ing.B)
+        if g.any():
+            ck.ratio("repr_bound", float(np.max(np.where(g, over / np.where(g, ETA * ing.B, 1.0), 0.0))))
+        if badm.any():
+            k = int(np.where(badm)[0][0])
+            ck.viol(c, "bound", sv, f"{kinds}: bin {k} (navg={int(ing.navg[k])}): residual power {float(pw[k])!r} exceeds the record's own output spectrum "
+                    f"Gyy={float(ing.S00[k])!r}", {"bin": k, "observed": float(pw[k]), "Gyy": float(ing.S00[k])})
+        # least-squares optimum of the record's own spectra
+        if ck.cmp_power(c, "optimal", sv, pw, ing.rref, ing.B, g, f"({kinds}) least-squares minimum from the spectra of the same values is", key="repr_optimal"):
+            P.nontrivial.add(("repr_optimal", sv) + keyb)
+        # q = 1: sqrt(Gyy*(1-coh)) of the actual record
+        if ref2 is not None:
+            P.cases += 1
+            if ck.cmp_power(c, "siso_identity", sv, pw, ref2, ing.B, g, f"({kinds}) Gyy*(1-coh) of the same values is", key="repr_siso_identity"):
+                P.nontrivial.add(("repr_siso_identity", sv) + keyb)
+        # same values stored as contiguous float64 arrays (the MISO solvers, ~3x dearer than SISO, are re-run on float64 only when `full` or when
+        # a claim above failed: "optimal" already pins their result to the float64 spectra of the values within ETA*B)
+        if not (full or sv == "siso" or len(P.violations) > n_before):
+            continue
+        a64 = ck.run_fn(c, "representation", sv, [np.array(v, dtype=np.float64) for v in xs], np.array(y, dtype=np.float64), ing)
+        if a64 is not None:
+            if ck.cmp_power(c, "representation", sv, pw, a64 ** 2, 2 * ing.B, g, f"({kinds}) the same values as float64 arrays give", key="representation"):
+                P.nontrivial.add(("representation", sv) + keyb)
+    if "siso" in res:
+        for sv in ("numeric", "analytic"):
+            if sv in res:
+                P.cases += 1
+                if ck.cmp_power(c, "siso_vs_miso", sv, res[sv], res["siso"], 2 * ing.B, ing.mask(sv), f"({kinds}) SISO function gives", key="repr_siso_vs_miso"):
+                    P.nontrivial.add(("repr_siso_vs_miso", sv) + keyb)
+    if "numeric" in res and "analytic" in res:
+        P.cases += 1
+        if ck.cmp_power(c, "solvers_agree", "analytic-vs-numeric", res["analytic"], res["numeric"], 2 * ing.B, ing.good_ana, f"({kinds}) numeric solver gives",
+                        key="repr_solvers_agree"):
+            P.nontrivial.add(("repr_solvers_agree",) + keyb)
+    # the caller's carriers are left alone (values and dtype)
+    P.cases += 1
+    for n, r, v in list(zip(c["reps_in"], rx, xs)) + [(c["rep_out"], ry, y)]:
+        if not np.array_equal(rep_values(r), v):
+            ck.viol(c, "glue", "all", f"the caller's {n} record was modified by the call")
+    c.pop("_S00", None)
+
+
+def repr_plan(rng, thorough: bool, intensive: bool) -> List[Dict[str, Any]]:
+    """every carrier at least once as the input of a q = 1 problem against an output of the opposite kind (narrow input with a fractional
+    float64-valued output, float64-valued input with a narrow output), carriers as OUTPUT (all of them when thorough/intensive, a random quarter
+    otherwise), random pairs, and q = 2..4 problems whose inputs mix carriers"""
+    full = thorough or intensive
+    plan: List[Dict[str, Any]] = []
+    names = [r for r in REP_NAMES if r != "f64"]
+    for i, r in enumerate(names):
+        other = "wide" if r in NARROW else "narrow"
+        sol = ["siso", "numeric", "analytic"] if full else ["siso", ("numeric", "analytic")[i % 2]]
+        plan.append({"q": 1, "in": [r], "out": other, "solvers": sol})
+    outs = names if full else [names[int(j)] for j in rng.choice(len(names), size=len(names) // 4, replace=False)]
+    for i, r in enumerate(outs):
+        other = "wide" if r in NARROW else "narrow"
+        sol = ["siso", "numeric", "analytic"] if full else ["siso", ("analytic", "numeric")[i % 2]]
+        plan.append({"q": 1, "in": [other], "out": r, "solvers": sol})
+    for i in range(24 if full else 4):
+        plan.append({"q": 1, "in": ["any"], "out": "any", "solvers": ["siso", "numeric", "analytic"] if full else ["siso", ("numeric", "analytic")[i % 2]]})
+    qs = [2, 3, 2, 4] if full else [2, 3, 2, 2]
+    for i in range(32 if full else 6):
+        q = qs[i % 4]
+        first, out = (("narrow", "wide"), ("wide", "narrow"), ("any", "any"), ("narrow", "any"))[i % 4]
+        ins = [first] + [("any", "wide", "narrow")[(i + j) % 3] for j in range(1, q)]
+        if i % 2:
+            ins = ins[::-1]                       # the narrow / wide carrier is not always the first channel
+        sol = ["numeric", "analytic"] if (full or q == 2) else [("numeric", "analytic")[(i // 2) % 2]]
+        plan.append({"q": q, "in": ins, "out": out, "solvers": sol})
+    return plan
+
+
+def repr_stream(ck: "Checker", ctx, seed: int, intensive: bool) -> None:
+    rng = np.random.default_rng(int(seed))
+    t_start = ctx.budget_s - ctx.time_left()
+    cap = ctx.scale(20, 150) * (2 if intensive else 1)
+    plan = repr_plan(rng, ctx.thorough, intensive)
+    for i, it in enumerate(plan):
+        if ctx.time_left() < 40 or (ctx.budget_s - ctx.time_left()) - t_start > cap:
+            ck.P.notes.append(f"representation stream: time budget reached after {i} of {len(plan)} cases")
+            break
+        c = build_repr_case(int(rng.integers(0, 2 ** 62)), it["q"], it["in"], it["out"], ctx.thorough)
+        check_repr(ck, c, it["solvers"], full=bool(ctx.thorough or intensive))
+        if i in (0, 9, len(plan) - 1):
+            ck.P.sample({"op": "oracle-representation", **case_desc(c)})
+        if len(ck.P.violations) >= 8:
+            break
+
+
 def oracle(ctx, intensive: bool = False, hints: List[Dict[str, Any]] = ()) -> C.Part:
     """the property's sub-claims on the real implementation only"""
     P = C.Part()
@@ -664,6 +971,10 @@ def oracle(ctx, intensive: bool = False, hints: List[Dict[str, Any]] = ()) -> C.
         glue_checks(ck, np.random.default_rng(int(ctx.rng.integers(0, 2 ** 62))))
     except Exception as ex:
         P.notes.append(f"glue checks aborted: {ex!r}"[:200])
+    # seed derived from VERIF_SEED without consuming ctx.rng (the generated-case stream below stays what it was)
+    repr_seed = int(np.random.default_rng([int(ctx.seed), 0xC15C]).integers(0, 2 ** 62))
+    if len(P.violations) < 8:
+        repr_stream(ck, ctx, repr_seed, intensive)
     # cases on which the model and the implementation disagreed are searched first
     for h in list(hints)[:6]:
         cd = h.get("case") if isinstance(h, dict) else None
@@ -709,6 +1020,12 @@ def replay(ctx, data) -> C.Part:
         if key in seen:
             continue
         seen.add(key)
+        if cd.get("stream") == "repr":
+            c = build_repr_case(cd["sub_seed"], cd["q"], list(cd["reps_in"]), cd["rep_out"], bool(cd.get("big", False)), bool(cd.get("as_tuple", False)))
+            if case_digest(c) != cd.get("digest"):
+                P.notes.append(f"replay: regenerated records differ from the stored digest for representation case {cd['sub_seed']}")
+            check_repr(ck, c, ["siso", "numeric", "analytic"])
+            continue
         if cd["sub_seed"] == -2:
             c = d2_witness()
         elif cd["sub_seed"] == -3:
